@@ -1,0 +1,60 @@
+//go:build verif
+
+package trie
+
+// Verification exports for property C20, second file (new, build tag `verif` only): a raw copy of
+// EVERY field a trie object holds, exactly as UnmarshalBinary left it (no recomputation, no
+// clipping), so that an object that was used before (trie pool) can be compared field by field
+// with a fresh one, and the result of unmarshalling a damaged image can be compared with the model.
+
+// VerifRawVec is a raw copy of a rank / select vector: Param is blockSize (rank) or numOnes (select).
+type VerifRawVec struct {
+	NumBits, Words uint32
+	Bits           []uint64
+	Param          uint32
+	Lut            []uint32
+}
+
+// VerifRawTrie is a raw copy of all fields of a trie.
+type VerifRawTrie struct {
+	TotalKeys, Height uint32
+	Labels            []byte
+	HasChild          VerifRawVec
+	Louds             VerifRawVec
+	HasPrefix         VerifRawVec
+	PrefixOffsets     []uint32
+	PrefixData        []byte
+	HasSuffix         VerifRawVec
+	SuffixOffsets     []uint32
+	SuffixData        []byte
+	Values            []uint32
+}
+
+func verifRawRank(v *rankVector) VerifRawVec {
+	return VerifRawVec{NumBits: v.numBits, Words: v.words, Bits: append([]uint64{}, v.bits...),
+		Param: v.blockSize, Lut: append([]uint32{}, v.rankLut...)}
+}
+
+// VerifRaw copies every field of t.
+func VerifRaw(t SuccinctTrie) *VerifRawTrie {
+	tr, ok := t.(*trie)
+	if !ok {
+		return nil
+	}
+	return &VerifRawTrie{
+		TotalKeys: tr.totalKeys,
+		Height:    tr.height,
+		Labels:    append([]byte{}, tr.labelVec.labels...),
+		HasChild:  verifRawRank(&tr.hasChildVec.rankVector),
+		Louds: VerifRawVec{NumBits: tr.loudsVec.numBits, Words: tr.loudsVec.words,
+			Bits: append([]uint64{}, tr.loudsVec.bits...), Param: tr.loudsVec.numOnes,
+			Lut: append([]uint32{}, tr.loudsVec.selectLut...)},
+		HasPrefix:     verifRawRank(&tr.prefixVec.hasPathVector.rankVector),
+		PrefixOffsets: append([]uint32{}, tr.prefixVec.offsets...),
+		PrefixData:    append([]byte{}, tr.prefixVec.data...),
+		HasSuffix:     verifRawRank(&tr.suffixVec.hasPathVector.rankVector),
+		SuffixOffsets: append([]uint32{}, tr.suffixVec.offsets...),
+		SuffixData:    append([]byte{}, tr.suffixVec.data...),
+		Values:        append([]uint32{}, tr.values.values...),
+	}
+}
